@@ -229,6 +229,14 @@ pub fn gen_header(kind: Kind, r: &mut Rng, p_random_state: bool, cb: u8, bad_arg
                     gr = r.range(1, sz) as f64 / sz as f64;
                 }
             }
+            if !bad_args && !zero_size && r.chance(1, 25) {
+                // decimal ratios on round sizes: size x ratio is mathematically an integer but not
+                // in floating point (100 x 0.57 = 56.99999999999999), the place where a floor
+                // computed in another precision or order shows
+                h.sizes[0] = *r.pick(&[50usize, 100, 100, 200]);
+                rr = r.below(101) as f64 / 100.0;
+                gr = r.range(1, 100) as f64 / 100.0;
+            }
             if random_state {
                 h.ctor = r.below(5) as u8;
                 match h.ctor {
@@ -1033,7 +1041,11 @@ pub fn gen(prop: &str, verif_seed: u64, run_index: u64, tier: Tier) -> Trace {
             Kind::TwoQ => {
                 h.sizes = vec![*rc.pick(&[50usize, 64, 100, 100, 128, 200, 255, 500, 1000, 1100])];
                 let sz = h.sizes[0] as u64;
+                let round = matches!(sz, 50 | 100 | 200);
                 let q = |rc: &mut Rng| -> f64 {
+                    if round && rc.chance(1, 2) {
+                        return rc.below(101) as f64 / 100.0;
+                    }
                     match rc.below(5) {
                         4 => rc.range(1, sz) as f64 / sz as f64,
                         0 => rc.below(101) as f64 / 100.0,
@@ -1071,7 +1083,8 @@ pub fn gen(prop: &str, verif_seed: u64, run_index: u64, tier: Tier) -> Trace {
             }
             _ => {}
         }
-        if scale && thorough && rc.chance(1, 250) {
+        if scale && thorough && rc.chance(1, 400) {
+            h.key_type = "TK".into();
             // beyond 2^16 entries in one list (thorough tier only: such a run takes seconds)
             match h.kind {
                 Kind::Lru => h.sizes = vec![65_600],
@@ -1227,7 +1240,7 @@ pub fn gen(prop: &str, verif_seed: u64, run_index: u64, tier: Tier) -> Trace {
                 }
                 events.push(first);
                 kg.hi = n1 as u32;
-                let phases = rs.range(1, 3);
+                let phases = if total > 60_000 { 1 } else { rs.range(1, 3) };
                 for _ in 0..phases {
                     if rs.chance(1, 2) {
                         // reads (promotions), overwrites or removals over a stretch of what was put
@@ -1238,7 +1251,7 @@ pub fn gen(prop: &str, verif_seed: u64, run_index: u64, tier: Tier) -> Trace {
                     for _ in 0..rs.range(4, 14) {
                         events.push(Event::new(gen_cache_op(kind, &h, &mut ro, &mut kg, &table, &mut next_val)));
                     }
-                    if rs.chance(1, 3) {
+                    if total <= 60_000 && rs.chance(1, 3) {
                         events.push(Event::new(Op::new(Code::Purge)));
                         for _ in 0..rs.range(1, 4) {
                             events.push(Event::new(gen_cache_op(kind, &h, &mut ro, &mut kg, &table, &mut next_val)));
